@@ -21,7 +21,7 @@ import json
 import re
 
 from . import linq_eval as le
-from .core import Streams, mix
+from .core import Streams, mix, small_stack
 
 ENGINE_VERSION = 2
 SHRINK_EXEC = 3000
@@ -471,7 +471,12 @@ def generate(prop, seed, tier="quick", fault_free=False):
             n_served += 1
             continue
         if r < 0.42 or n_served == 0:
-            ops.append({"op": "serve", "q": gen_query(w, names, reuse, helpers)})
+            op = {"op": "serve", "q": gen_query(w, names, reuse, helpers)}
+            if w.random() < 0.12:
+                # resource fault: few frames left for the recursive rewrite, as for a much
+                # deeper query.  Failing with RecursionError is fine, a wrong answer is not.
+                op["stack"] = w.choice([40, 70, 110, 160])
+            ops.append(op)
             n_served += 1
         elif r < 0.55:
             ops.append({"op": "reserve", "ref": w.randrange(64)})
@@ -600,7 +605,7 @@ class Node:
             r = self.refs_cache[text] = [ev(a, d) for d in self.data]
         return r
 
-    def serve(self, text, refs, origin, root):
+    def serve(self, text, refs, origin, root, stack=None):
         """Simplify `text` under the node's current history and compare with `refs` (the
         outcomes of the query this text stands for)."""
         a = parse_query(text)
@@ -610,7 +615,11 @@ class Node:
             self.stat("served_with_argN_binder")
             if self.restarted_since_argn_made:
                 self.stat("probe_restart_with_argN_alive")
+        window = small_stack(stack) if stack else None
         try:
+            if window is not None:
+                window.__enter__()
+                self.stat("fault_small_stack")
             if self.case["config"].get("reuse_instance"):
                 if self.inst is None:
                     self.inst = self.mod.simplify_chained_calls()
@@ -621,13 +630,19 @@ class Node:
             else:
                 s = simplify(self.mod, a)
         except RecursionError:
+            if window is not None:
+                window.restore()
             self.stat("simplifier_recursion")
             self.events.append(f"serve|{origin}|recursion")
             return None
         except Exception as ex:  # totality is C18's business (n/a); counted, not judged
+            if window is not None:
+                window.restore()
             self.stat("simplifier_raised")
             self.events.append(f"serve|{origin}|raised:{type(ex).__name__}")
             return None
+        if window is not None:
+            window.restore()
         try:
             out_text = to_text(s)
         except Exception:
@@ -681,7 +696,8 @@ class Node:
                     self.stat({"roundtrip": "probe_roundtrip_served",
                                "extend": "probe_extended_output_served"}.get(
                         op.get("was"), "probe_same_text_two_histories"))
-                rec = self.serve(op["q"], self.refs_for(root), op.get("was", "submit"), root)
+                rec = self.serve(op["q"], self.refs_for(root), op.get("was", "submit"), root,
+                                 stack=op.get("stack"))
                 if rec:
                     self.served.append(rec)
             elif k == "reserve":
